@@ -383,6 +383,19 @@ def run(M, c):
     b = a.in_tz(tgt if isinstance(tgt, str) else ttz)   # contract judges
     b2 = a.astimezone(ttz)                    # contract judges
     ttz.convert(src)                          # convert contract on the foreign value itself
+    if not isinstance(tgt, str):
+        # A -> B -> C with B and C two fixed offsets that differ only in their seconds (their +-HH:MM names coincide)
+        c_off = tgt - tgt % 60 + (tgt % 60 + 17) % 60 if tgt >= 0 else -((-tgt) - (-tgt) % 60 + ((-tgt) % 60 + 17) % 60)
+        if abs(c_off) < 86400 and c_off != tgt:
+            try:
+                cz = P.tz.timezone.FixedTimezone(c_off)
+                p3 = b.in_tz(cz)                      # contract judges against ('fixed', c_off)
+                d3 = a.in_tz(cz)
+                M.check("path", (fields(p3), off_us(p3)) == (fields(d3), off_us(d3)) and off_us(p3) == c_off * US, "C01/path-dependence:fixed-same-minute",
+                        "A->B->C differs from A->C for two fixed offsets within one minute", a=judge.desc(a), b=judge.desc(b), via=judge.desc(p3),
+                        direct=judge.desc(d3), c_offset=c_off)
+            except (OverflowError, ValueError):
+                M.count("fixed_same_minute_out_of_range")
     if not isinstance(tgt, str) and tgt % 900 == 0:
         # the same fixed offset requested as a number of hours (int or float: -3.5, 5.75, -0.25)
         hrs = tgt // 3600 if tgt % 3600 == 0 and c["u"] % 2 else tgt / 3600
